@@ -383,7 +383,7 @@ def replay(hist_ops):
 
 
 def run(ctx):
-    passes = [(False, 14), ("re", 14 if ctx.thorough else 7)]
+    passes = [(False, 14), ("re", 14)]  # both to a fixpoint
     if ctx.thorough:
         passes.append((True, 6))  # three ids + more unit choices: too large for a fixpoint, depth bounded
     res = None
